@@ -117,13 +117,16 @@ CHECKS = {
         technique="explicit-state BFS (level-synchronous, deviation-bounded staircase, canonical state hashing) over the real ProxiedCircuit under a virtual "
                   "loop/clock, differential against a reference model, plus deep-vs-shallow seam conformance",
         text="Every history over {endpoint send reliable/unreliable with appended acks for none/oldest/newest/all pending receipts, forwarded or dropped; standalone "
-             "PacketAck; endpoint retransmission; proxy injection reliable/unreliable; tick short/past/exhaust} per direction is executed on a real ProxiedCircuit "
-             "(real deserializer in, real serializer out) up to depth 5 with <=3 deviations (quick), plus depth 6/<=2 and 7/0 (thorough); the same histories to depth "
-             "3 (4) are replayed through InterceptingLLUDPProxyProtocol.datagram_received with a real Session, a drop addon and the attempt_resends task and must "
+             "PacketAck; endpoint retransmission; proxy injection reliable/unreliable; addon take() of a reliable packet with its copy re-sent at once or after "
+             "any later events; StartPingCheck with OldestUnacked sent or unsent; tick short/past/exhaust} per direction is executed on a real ProxiedCircuit "
+             "(real deserializer in, real serializer out) to depth 5 with <=2 deviations and depth 4 with <=3 (quick), plus 5/<=3, 6/<=2 and 7/0 (thorough); the same "
+             "histories to depth 3 (4) are replayed through InterceptingLLUDPProxyProtocol.datagram_received with a real Session, a drop addon and the attempt_resends task and must "
              "emit identical datagrams. The oracle reads only the decoded datagrams handed to the transport and the futures of send_reliable, one clause per sentence.",
         note="Endpoints number packets 1,2,3.., ack only reliable packets they received, retransmit only their own unacked reliable packets; delivery to endpoints is "
              "lossless and instant (late/lost acks via ack-selection choices); retry budget and interval read from the code; one poll of slack at the interval "
-             "boundary; not covered: ID wrap, 10000-window eviction, StartPingCheck rewriting, dropping a standalone PacketAck; hmc.refwire, a 20-line decoder, "
+             "boundary; take and ping weigh 2 in the deviation bound, only reliable packets are taken, the rewritten OldestUnacked is recorded in the outcome "
+             "signature but not judged; deep-seam tick(exhaust) is polled one poll before/at/after each instant the model expects something due; not covered: ID wrap, "
+             "10000-window eviction, dropping a standalone PacketAck; hmc.refwire, a 20-line decoder, "
              "hmc.vloop and the hand-written world clone (re-validated by full replay on every 53rd state) trusted."),
     "C06": dict(
         category="model_checking", design_ref="DESIGN.md §4 C06",
@@ -169,7 +172,10 @@ CHECKS = {
              "wire domain is swept, 32/64-bit domains use a boundary / single-bit / all-but-one-bit / members+-1 alphabet; payloads are built one leaf at a time from "
              "the serializer's own template with all subsets of option-switching flag bits; 'accepted payloads' add single-byte substitution, truncation, extension "
              "and cross-context feeding (fixed point after one pass); date entries run under 4 process time zones across every minute within +-2 h of 12 DST "
-             "transitions plus sub-second raws; Block cache invalidation and pod literal evaluation are checked per entry.",
+             "transitions plus sub-second raws; Block cache invalidation and pod literal evaluation are checked per entry. Every quantised vector/quaternion element "
+             "gets raws {min, min+1, mid-1, mid, mid+1, max-1, max} (8-bit: all) one component at a time from two bases, both value-first and spliced directly into "
+             "the payload bytes. Encode histories: [fail], [fail, fail], [foreign fail], [foreign fail, fail] (failing encodes that raise after writing >= 1 byte) "
+             "followed by serialize / serialize(pod) / Block.serialize_var must give the bytes two clean encodes gave.",
         note="Wire types from message_template.msg through the independent parser; 32/64-bit domains by alphabet; UNSERIALIZABLE means 'no pretty form'; floats NaN-free; "
              "9 registrations naming variables that do not exist in the template are out of scope; value generation uses the library's spec objects and adapter grids; "
              "a round-trip oracle cannot see an encoder that loses information consistently with its decoder (C13 covers the compressed-update template independently)."),
